@@ -176,16 +176,44 @@ func comparableFields(o appOutcome, stream StreamPlan) map[string]bool {
 	if o["accepted"] == "true" {
 		return all
 	}
+	// what the library says for a plain spec mismatch is learnt from the tree under test, not assumed
+	mismatch := specMismatchText()
 	errOut := o["stderr"]
-	rejectedByValue := strings.Contains(errOut, "Error: ") && !strings.Contains(errOut, "Error: incorrect usage")
-	if t, ok := o["err_text"]; ok && t != "incorrect usage" && o["events"] == "" {
+	rejectedByValue := strings.Contains(errOut, "Error: ") && !strings.Contains(errOut, "Error: "+mismatch+"\n")
+	if t, ok := o["err_text"]; ok && t != mismatch && o["events"] == "" {
 		rejectedByValue = true
+	}
+	if strings.Contains(o["probe_logs"], "!err") {
+		rejectedByValue = true // a user value refused a token (whatever its error says)
 	}
 	unreadable := stream.Kind != StreamHealthy && o["events"] == "" && (strings.HasPrefix(o["end"], "returned-error") || strings.HasPrefix(o["end"], "exited(2)") || o["panic"] == "error")
 	if rejectedByValue || unreadable {
 		return map[string]bool{"end": true, "events": true, "accepted": true, "stdout": true, "panic": true}
 	}
 	return all
+}
+
+var mismatchText string
+
+// specMismatchText runs a calibration application once per process: spec `X`, no argument.
+func specMismatchText() string {
+	if mismatchText != "" {
+		return mismatchText
+	}
+	root := &CmdDecl{Name: "calib", Spec: "X", Decls: []*Decl{{IsArg: true, Kind: KString, Name: "X"}}, Action: CB{Kind: CBReturn}}
+	app := &AppDecl{Root: root, Policy: policies[0]}
+	app.Finish()
+	p := NewProc(99)
+	saved, savedSched := cur, theSched
+	if theSched == nil && !gidMode {
+		RunProc(p, func() error { return Build(app, p).Cli.Run([]string{"calib"}) })
+	}
+	cur, theSched = saved, savedSched
+	mismatchText = "incorrect usage"
+	if p.End == EndReturned && p.Err != nil {
+		mismatchText = p.Err.Error()
+	}
+	return mismatchText
 }
 
 // the fields the determinism clause is about
